@@ -732,6 +732,11 @@ def sym_int(x=0, base=None):
         return SymInt(_as_int_term(x))
     if isinstance(x, SymReal):
         _unsupported("int(SymReal)")
+    if isinstance(x, CharStr):
+        s_ = x.concrete()
+        if s_ is None:
+            _unsupported("int(CharStr with symbolic characters)")
+        return int(s_) if base is None else int(s_, base)
     if base is not None:
         return int(x, base)
     return int(x)
@@ -861,6 +866,40 @@ class FnTable(UFTable):
 
     def __getitem__(self, x):
         return SymBV(z3.simplify(self.fn(self._arg(x))), 8)
+
+
+def str_constants(*modules):
+    """every str constant reachable from the code objects and module-level containers of the
+    given modules (the strings their hashed containers can contain)"""
+    import types
+    out = set()
+
+    def from_const(c):
+        if isinstance(c, str):
+            out.add(c)
+        elif isinstance(c, (tuple, frozenset, set, list)):
+            for x in c:
+                from_const(x)
+        elif isinstance(c, dict):
+            for k, v in c.items():
+                from_const(k)
+                from_const(v)
+        elif isinstance(c, types.CodeType):
+            for x in c.co_consts:
+                from_const(x)
+
+    for m in modules:
+        for v in list(vars(m).values()):
+            if isinstance(v, types.FunctionType) and v.__module__ == m.__name__:
+                from_const(v.__code__)
+            elif isinstance(v, type) and v.__module__ == m.__name__:
+                for a in vars(v).values():
+                    f = getattr(a, "__func__", a)
+                    if isinstance(f, types.FunctionType):
+                        from_const(f.__code__)
+            elif isinstance(v, (set, frozenset, tuple, list, dict)):
+                from_const(v)
+    return out
 
 
 def sym_len(x):
@@ -1109,7 +1148,16 @@ class CharStr:
         s_ = self.concrete()
         if s_ is not None:
             return hash(s_)
-        _unsupported("hash(CharStr) - swap the dict/set for a SymMap/SymSet proxy")
+        uni = getattr(_CUR, "hash_universe", None)
+        if uni is None:
+            _unsupported("hash(CharStr) - swap the dict/set for a SymMap/SymSet proxy or set ctx.hash_universe")
+        # fork over the string constants the code under test can hold in hashed containers
+        for cand in sorted(uni):
+            if len(cand) == len(self.c) and (self == cand):
+                self.c = [ord(ch) for ch in cand]
+                return hash(cand)
+        _CUR.note("hash_of_string_outside_universe")
+        return hash(("charstr-not-in-universe", len(self.c)))
 
     def __add__(self, o):
         oc = self._codes(o)
@@ -1558,6 +1606,7 @@ class SymCtx(_Base):
         self.perturb = run.perturb
         self.tier = run.tier
         self.params = run.params
+        self.hash_universe = None
 
     # ---- inputs ----------------------------------------------------------------------
     def _name(self, name):
